@@ -226,8 +226,10 @@ func (p *AddressPool) Allocate(duid string) net.IP {
 	defer p.mu.Unlock()
 
 	// Check if already allocated
+	// (the caller gets a copy: the slice in the map is the one Release puts back on
+	// the free list, a write through the result must not reach the pool)
 	if ip, ok := p.allocated[duid]; ok {
-		return ip
+		return copyIPv6(ip)
 	}
 
 	// Allocate new
@@ -238,7 +240,7 @@ func (p *AddressPool) Allocate(duid string) net.IP {
 	ip := p.available[0]
 	p.available = p.available[1:]
 	p.allocated[duid] = ip
-	return ip
+	return copyIPv6(ip)
 }
 
 // Release releases an address
@@ -327,9 +329,9 @@ func (p *PrefixPool) Allocate(duid string) *net.IPNet {
 	p.mu.Lock()
 	defer p.mu.Unlock()
 
-	// Check if already allocated
+	// Check if already allocated (the caller gets a copy, see AddressPool.Allocate)
 	if prefix, ok := p.allocated[duid]; ok {
-		return prefix
+		return copyIPNet(prefix)
 	}
 
 	// Allocate new
@@ -340,7 +342,7 @@ func (p *PrefixPool) Allocate(duid string) *net.IPNet {
 	prefix := p.available[0]
 	p.available = p.available[1:]
 	p.allocated[duid] = prefix
-	return prefix
+	return copyIPNet(prefix)
 }
 
 // Release releases a prefix
@@ -1027,6 +1029,13 @@ func copyIPv6(ip net.IP) net.IP {
 	dup := make(net.IP, 16)
 	copy(dup, ip.To16())
 	return dup
+}
+
+func copyIPNet(n *net.IPNet) *net.IPNet {
+	return &net.IPNet{
+		IP:   append(net.IP(nil), n.IP...),
+		Mask: append(net.IPMask(nil), n.Mask...),
+	}
 }
 
 // GenerateDUID generates a random DUID for testing
